@@ -626,16 +626,21 @@ func (rule *RuleAction) checkAction(meta *ActionMetadata, exec *ExecAction, desc
 		for _, s := range []struct {
 			name string
 			val  *String
-		}{{"entrypoint", exec.Entrypoint}, {"args", exec.Args}} {
+			key  *Pos
+		}{{"entrypoint", exec.Entrypoint, exec.entrypointKeyPos}, {"args", exec.Args, exec.argsKeyPos}} {
 			if _, ok := meta.Inputs[s.name]; ok || s.val == nil {
 				continue
+			}
+			pos := s.key // Report at the key like other undefined inputs
+			if pos == nil {
+				pos = s.val.Pos
 			}
 			ns := make([]string, 0, len(meta.Inputs))
 			for _, i := range meta.Inputs {
 				ns = append(ns, i.Name)
 			}
 			rule.Errorf(
-				s.val.Pos,
+				pos,
 				"input %q is not defined in action %s. available inputs are %s",
 				s.name,
 				describe(meta),
